@@ -208,17 +208,44 @@ def mk_frame(k, hide=False, contexts=()):
     return Frame(pyframe=g.gi_frame, hide=hide, contexts=list(contexts))
 
 
+def _exception_group():
+    import builtins
+    eg = getattr(builtins, "ExceptionGroup", None)
+    if eg is None:
+        from exceptiongroup import ExceptionGroup as eg
+    return eg
+
+
 def mk_stack(spec):
     """spec: dict(frames=[frame specs], leaf=bool, error=bool, root=str|None)"""
     from stackscope import Stack
     frames = [mk_frame_spec(f) for f in spec.get("frames", [])]
     err = None
     if spec.get("error"):
+        kind = spec.get("error")
         try:
-            if spec.get("error") == "multi":
+            if kind == "multi":
                 raise Boom("boom %s:\n  second line of the message\nthird line" % spec.get("root"))
+            if kind == "chained":
+                # an error with an explicit cause which itself was raised while handling another one
+                try:
+                    try:
+                        raise KeyError("root cause %s" % spec.get("root"))
+                    except KeyError:
+                        raise ValueError("while handling %s" % spec.get("root"))
+                except ValueError as inner:
+                    raise Boom("boom %s" % spec.get("root")) from inner
+            if kind == "group":
+                # what extract() records when several hooks fail: an ExceptionGroup of errors that carry tracebacks
+                subs = []
+                for j in range(2):
+                    try:
+                        raise Boom("boom %s #%d" % (spec.get("root"), j))
+                    except Boom as sub:
+                        subs.append(sub)
+                raise _exception_group()("multiple errors encountered while extracting stack", subs)
             raise Boom("boom %s" % spec.get("root"))
-        except Boom as ex:
+        except Exception as ex:
             err = ex
     root = Obj(spec["root"]) if spec.get("root") else None
     return Stack(root=root, frames=frames, leaf=(Obj("LEAF%s" % spec.get("root", "")) if spec.get("leaf") else None), error=err)
@@ -298,7 +325,8 @@ def check_stack(st, problems):
 INNERS = [None, {"frames": [{"k": 5}], "root": "IN1"}, {"frames": [{"k": 6}, {"k": 7, "contexts": [{"id": 9, "description": True}]}], "leaf": True, "error": True, "root": "IN2"},
           {"frames": [], "root": "IN3"}, {"frames": [], "leaf": True, "root": "IN4"}, {"frames": [], "error": True, "root": "IN5"},
           {"frames": [], "leaf": True, "error": True, "root": None}, {"frames": [{"k": 5, "hide": True}], "leaf": True, "root": "IN6"},
-          {"frames": [{"k": 6}], "error": "multi", "root": "IN7"}]
+          {"frames": [{"k": 6}], "error": "multi", "root": "IN7"}, {"frames": [{"k": 6}], "error": "chained", "root": "IN8"},
+          {"frames": [], "error": "group", "root": "IN9"}]
 CHILDSETS = [
     [],
     [{"id": 20, "description": True}],
@@ -358,7 +386,7 @@ def part2(depth):
         for cs in itertools.product(ctxsets, repeat=nframes):
             for hides in itertools.product((False, True), repeat=nframes):
                 for leaf in (False, True):
-                    for error in (False, True, "multi"):
+                    for error in (False, True, "multi", "chained", "group"):
                         frames = [{"k": i, "hide": hides[i], "contexts": cs[i]} for i in range(nframes)]
                         yield {"frames": frames, "leaf": leaf, "error": error, "root": "ROOT2" if (nframes + leaf) % 2 else None}
 
